@@ -198,14 +198,15 @@ fn distinct_items(t: Comp, depth: usize) -> M {
             // only two booleans exist: use an identifiable pattern instead of distinct values
             Comp::B => m.b.push([true, false, false, true, true, false, true][k % 7]),
             Comp::I => m.i.push(100 + k as i32),
-            Comp::F => m.f.push(100.5 + k as f32),
+            // one item is NaN (unequal to itself)
+            Comp::F => m.f.push(if k == 1 { f32::NAN } else { 100.5 + k as f32 }),
             Comp::N => m.n.push(format!("n{}", k)),
             Comp::C => m.c.push(twin_item(k)),
             Comp::E => m.e.push(twin_item(k)),
             Comp::BV => m.bv.push((0..=k).map(|j| j % 2 == 0).collect()),
             Comp::IV => m.iv.push((0..=k).map(|j| j as i32).collect()),
             // neighbours 2j, 2j+1 agree to three decimals (vectors print with {:.3})
-            Comp::FV => m.fv.push((0..=(k / 2)).map(|j| j as f32 + if k % 2 == 1 && j == 0 { 0.2504 } else if j == 0 { 0.2501 } else { 0.0 }).collect()),
+            Comp::FV => m.fv.push(if k == 2 { vec![f32::NAN, 1.0] } else { (0..=(k / 2)).map(|j| j as f32 + if k % 2 == 1 && j == 0 { 0.2504 } else if j == 0 { 0.2501 } else { 0.0 }).collect() }),
             _ => unreachable!(),
         }
     }
